@@ -6,16 +6,16 @@ import json, subprocess
 CLAIMED = {
  # id: (technique, level text, level note, design ref)
  "C01": ("reference-model monitor over generated + exhaustive-grid executions",
-         "Every Search / Compile+Search execution of an exhaustive selector-chain grid (all chains of <=3/4 selectors x 7 roots x 12 documents), of index and slice literals at the 8/16/32/64-bit boundaries over arrays of 1..300 elements in every position an index can take, of every comparison operator between all pairs of 44 numbers at the 2^31/2^32/2^53/2^63/2^64/10^19 boundaries, and of seeded document-directed random core-language expressions is compared with an independent reference evaluator; held = no disagreement on any decided case explored.",
+         "Every Search / Compile+Search execution of an exhaustive selector-chain grid (all chains of <=3/4 selectors x 7 roots x 12 documents), of index and slice literals at the 8/16/32/64-bit boundaries over arrays of 1..300 elements in every position an index can take, of 65 words that are keywords or literals elsewhere used as field names in every identifier position, of every comparison operator between all pairs of 44 numbers at the 2^31/2^32/2^53/2^63/2^64/10^19 boundaries, and of seeded document-directed random core-language expressions is compared with an independent reference evaluator; held = no disagreement on any decided case explored.",
          "Trusts the reference model where it decides (calibrated on the whole compliance corpus, abstains where the spec is open); covers only the executions produced.", "§6 C01"),
  "C02": ("reference-model monitor over an exhaustive argument-type matrix, a boundary lattice and generated calls",
          "Every builtin x every arity 0..max+1 x every argument vector over a 23-value pool (exhaustive to arity 3, arity 4 exhaustive in thorough), an exhaustive integer-parameter boundary lattice, seeded document-directed calls (incl. caller-scope expression references and expression-reference bodies that call builtins again), every per-element construct paired with every construct evaluated inside its body (19 x 32 re-entrant pairs), wide forms (variadic calls, multi-selects, lets, chains and nestings with 1..257 members), one wrong-typed element at the first/middle/last positions of arrays and argument lists of 1..65 members for every array/variadic builtin, and every numeric builtin over 44 boundary numbers (literal, string and document routes) are executed through Search and compared with independent reference builtins (value, or error category).",
          "Trusts the reference builtins where they decide (abstentions listed in ref/DETERMINACY.md); huge pad widths are not executed (known finding on C03).", "§6 C02"),
  "C03": ("crash monitor: recovered-panic oracle + child-death attribution via a crash-surviving intent slot; thorough tier repeats the data workloads under the race detector (checkptr)",
-         "Hostile expression bytes (exhaustive truncations of the corpus, random bytes/tokens, token mutants, 1 MiB flat inputs, 20 recursive constructs nested to 1e5/3e5 and 4e6) and hostile Go data (every numeric kind incl. NaN/Inf, odd json.Number texts, decimal specials, typed nils, foreign values, invalid UTF-8 in every argument position of every builtin and operator; an exhaustive start/stop/step lattice over the 64-bit limits on single-byte strings, multi-byte strings and arrays) are driven through Search, Compile and Expression.Search in child processes; every returned error is formatted; panics and process deaths are violations.",
+         "Hostile expression bytes (exhaustive truncations of the corpus, random bytes/tokens, token mutants, 1 MiB flat inputs, 20 recursive constructs nested to 1e5/3e5 and 4e6) and hostile Go data (every numeric kind incl. NaN/Inf, odd json.Number texts, decimal specials, typed nils, foreign values, invalid UTF-8 in every argument position of every builtin and operator; an exhaustive start/stop/step lattice over the 64-bit limits on single-byte strings, multi-byte strings and arrays; failing expressions of every error category with 0..65537 characters of one encoded width) are driven through Search, Compile and Expression.Search in child processes; every returned error is formatted; panics and process deaths are violations.",
          "A death is attributed to the last intent record; address space capped at 4 GiB per child; wall-clock watchdog firings are 'not judged'. Known finding: pad widths beyond memory (known_findings.json).", "§6 C03"),
  "C04": ("reference-recogniser monitor over exhaustive whitespace-gap and single-token-edit neighbourhoods",
-         "Compile's verdict on every text is compared with two independent recognisers (STRICT must compile / LENIENT-rejected must fail with a syntax error, or with a static function fault when a call precedes the error); the texts are every token gap of a base set filled with 5 whitespace strings, the complete single-token-edit neighbourhood of that base set (45 token kinds), hand-written member/non-member lists, every text of <= 5/6 characters over the JSON-number alphabet as a JSON literal (alone, in an array, as a member, in a filter), generated members in hostile spellings and generated/corrupted JSON literal texts. A non-member that compiles is reported with what it evaluated to.",
+         "Compile's verdict on every text is compared with two independent recognisers (STRICT must compile / LENIENT-rejected must fail with a syntax error, or with a static function fault when a call precedes the error); the texts are every token gap of a base set filled with 5 whitespace strings, the complete single-token-edit neighbourhood of that base set (45 token kinds), hand-written member/non-member lists, every text of <= 5/6 characters over the JSON-number alphabet as a JSON literal (alone, in an array, as a member, in a filter), ~125 foreign tokens (other languages' operators and keywords, look-alikes) inserted at token gaps, complete constructs in slots that do not admit them, generated members in hostile spellings and generated/corrupted JSON literal texts. A non-member that compiles is reported with what it evaluated to.",
          "Texts between STRICT and LENIENT (whitespace inside [*]/[]/[?, let/in as identifiers, >64-bit integers, lone surrogates, raw control characters in quoted identifiers, multi-select directly after a projection) are not judged.", "§6 C04"),
  "C05": ("reference-model monitor with exact rational arithmetic (big.Rat) and ulp bounds",
          "Every arithmetic execution (60x60 boundary pool x 12 operators exhaustive, seeded operands up to 34/40 digits across the decimal128 exponent range, cancelling pairs, sum/avg/abs/ceil/floor/to_number/comparison, and prefix ladders that feed one long number text prefix by prefix within one process) is compared with exact rational arithmetic: equal when the exact result has <= 34 significant digits, within one unit of the 34th digit otherwise, not-a-number error for division by zero/overflow, never an infinity or NaN value; operands travel as json.Number, literal and decimal128.",
@@ -39,7 +39,7 @@ CLAIMED = {
          "Every instantiation of the identity schemata over 15 bases x 60 selector tails (incl. index literals around the 8-bit boundaries) x 11 filters x 16 documents (two with 300-element arrays), plus seeded random ones, plus slot rewrites (1-3 expression slots of generated expressions and of ~100 optimiser-targeted idioms replaced by (e | @), (@ | e), (let $zz = e in $zz), which keep meaning and evaluation order but defeat peephole rewrites and fused fast paths), is evaluated on both sides by the library and the outcomes compared (values canonically, errors by category).",
          "The reference model is only used to drop instances whose meaning is not pinned (order-dependent enumerations, null elements meeting multi-selects/functions); dropped instances are counted.", "§6 C17"),
  "C20": ("reference-model + relational-law monitor over all pairs/triples of a value pool",
-         "All ordered pairs of a 64-value pool through ==, !=, contains, filter equality and container wrappers (literal and document routes) against deep type-strict model equality with reflexivity, symmetry, negation; all triples for transitivity (thorough); every value pair through !, &&, ||, filter predicates against the single false-like set, && and || returning an operand unchanged; random nested values with controlled perturbations; whole comparison matrices computed inside one evaluation with operands rebound per element (every comparison node evaluated many times with different values and types).",
+         "All ordered pairs of a 64-value pool through ==, !=, contains, filter equality and container wrappers (literal and document routes; numbers as json.Number and as float64/float32/int64/uint64/decimal128 wherever exact) against deep type-strict model equality with reflexivity, symmetry, negation; all triples for transitivity (thorough); every value pair through !, &&, ||, filter predicates against the single false-like set, && and || returning an operand unchanged; random nested values with controlled perturbations; whole comparison matrices computed inside one evaluation with operands rebound per element (every comparison node evaluated many times with different values and types).",
          "Numbers compared exactly as rationals; values beyond 34 digits are not in the pool.", "§6 C20"),
  "C14": ("metamorphic monitor: outcome invariance under re-typing of number leaves, library against itself",
          "For documents of dyadic rationals (exact in every Go numeric kind) and 112 templates (incl. sorts and comparisons re-entered per element) plus random expressions, the outcome with all leaves as canonical json.Number is compared with the outcomes under 6 random assignments of Go kinds and json.Number spellings per case; a boundary stream does the same for large integral values (2^31..2^64, 2^100) in every kind that holds them exactly, alone and together with their neighbours v-1 and v+1; a precise stream does it for 17 numbers that need more precision than a float64 has (near-integers, 2^63-1 with a fraction part) in every carrier that holds them exactly, and against the exact model.",
@@ -54,13 +54,13 @@ CLAIMED = {
          "66 canonical scope shapes (incl. null-valued inner bindings shadowing outer ones at every use site, wide lets of 6-10 bindings followed by narrow lets looking up unbound names) and seeded random nestings (depth 3-4, occasionally 5-10 bindings) bind unique tagged literals or the id of the current node, so each result identifies the binding and the context that were captured; every outcome is compared with the reference model's lexical environments, incl. undefined-variable errors only where the reference is evaluated.",
          "Trusts the reference model's environments (50 lines); calibrated on letexpr.json.", "§6 C19"),
  "C06": ("history monitor: per-call comparison with fresh evaluation + deep snapshots (capacity-tail canaries, container identities) + AST fingerprint hook",
-         "Histories of 3-8 Expression.Search calls over 2-4 documents with repeats are checked call by call: outcome = fresh one-shot Search on a deep copy, every document byte-for-byte as snapshotted (incl. sentinel values in the unused capacity of every slice), AST fingerprint unchanged (hook VerifASTFingerprint), every earlier result still equal to its snapshot; a directed list applies every ordering/reversing/merging builtin to every way of passing an array of the document or a literal without a copy; an edited-in-place stream lets the caller edit its document between calls (same container identities) and requires Expression.Search and Search to agree with a fresh Search on a deep copy; MustCompile panics exactly when Compile fails.",
+         "Histories of 3-8 Expression.Search calls over 2-4 documents with repeats are checked call by call: outcome = fresh one-shot Search on a deep copy, every document byte-for-byte as snapshotted (incl. sentinel values in the unused capacity of every slice), AST fingerprint unchanged (hook VerifASTFingerprint), every earlier result still equal to its snapshot; a directed list applies every ordering/reversing/merging builtin to every way of passing an array of the document or a literal without a copy; a foreign-containers stream checks that documents holding typed slices/maps, arrays, structs and pointers keep the same dynamic type and value at every position; an edited-in-place stream lets the caller edit its document between calls (same container identities) and requires Expression.Search and Search to agree with a fresh Search on a deep copy; MustCompile panics exactly when Compile fails.",
          "Aliasing between a result and its input is allowed; only writes are violations. Enumerating expressions are compared through the model (unordered-aware).", "§6 C06"),
  "C07": ("Go race detector (happens-before) over a barrier-released concurrent workload in fresh processes + per-call equality with the sequential outcome + AST fingerprint hook",
-         "Worker built with -race; in each fresh process ~440 shared compiled expressions (generated ones plus a directed list applying every ordering/reversing/merging builtin to every way of passing a shared array or literal without a copy, large arrays with late type errors, integer arguments in every spelling and inexact arithmetic) and 20 shared read-only documents are hammered by 2-64 goroutines (GOMAXPROCS 2/4/16) mixing Search, Compile+Search and sharedExpression.Search; every race-detector report, every outcome differing from the precomputed sequential outcome, and every change to a shared Expression (fingerprint) or document (deep snapshot) is a violation.",
+         "Worker built with -race; in each fresh process ~440 shared compiled expressions (generated ones plus a directed list applying every ordering/reversing/merging builtin to every way of passing a shared array or literal without a copy, large arrays with late type errors, integer arguments in every spelling and inexact arithmetic) and 20 shared read-only documents (four of them foreign Go values, never evaluated before the goroutines are released; every third expression is cold as well, so that process-wide lazy initialisation happens under concurrency) are hammered by 2-64 goroutines (GOMAXPROCS 2/4/16) mixing Search, Compile+Search and sharedExpression.Search; every race-detector report, every outcome differing from the precomputed sequential outcome, and every change to a shared Expression (fingerprint) or document (deep snapshot) is a violation.",
          "Only interleavings actually produced are judged; races on AST node types not covered by the shared expressions are not seen (coverage counted in the evidence). porcupine/gofail do not apply: there is no shared mutable object or critical section in the library.", "§6 C07"),
  "C08": ("contract invariants on every failing call + reference-model fault analysis + Compile/Search/document metamorphic checks",
-         "Failing texts generated per category and site (every wrong arity of every builtin, unknown names, expression-reference position faults at every position, a wrong type at every argument position, every invalid-value site, undefined variables at every kind of site, division by zero/overflow, every dynamic fault category raised at the first/middle/last element of each per-element construct, two-fault combinations, syntax faults, mutated expressions, call histories: decorated variants, every prefix and several extensions of a text in sequence) are run through Compile, Search and Expression.Search on 13 documents: nil result with the error, exactly one exported category, category = the model's (or within its fault set), same static fault from Compile and from Search on every document, no static fault from a compiled Expression.",
+         "Failing texts generated per category and site (every wrong arity of every builtin, unknown names incl. ~250 builtin names of other implementations, static faults nested in other calls and in expression references, expression-reference position faults at every position, a wrong type at every argument position, every invalid-value site, undefined variables at every kind of site, division by zero/overflow, every dynamic fault category raised at the first/middle/last element of each per-element construct, two-fault combinations, syntax faults, mutated expressions, call histories: decorated variants, every prefix and several extensions of a text in sequence) are run through Compile, Search and Expression.Search on 13 documents: nil result with the error, exactly one exported category, category = the model's (or within its fault set), same static fault from Compile and from Search on every document, no static fault from a compiled Expression.",
          "Which of several simultaneous faults is reported is not judged beyond membership in the model's fault set.", "§6 C08"),
  "C15": ("online repetition monitor with rebuilt maps + offline cross-process comparison of recorded outcome digests + AST fingerprint hook",
          "Each (expression, document) - forms that range Go maps, sibling/nested/wide lets, merges, groupings - is evaluated 20/100 times per process on independently rebuilt maps (shuffled insertion, capacity hints, churn), alternately through Search, fresh Compile and a long-lived compiled Expression that is applied to a different document in between, in 4/16 fresh processes; outcomes must agree within a process (online) and across processes (offline checker over the merged event logs), AST fingerprints too; strict comparison for order-free expressions, multiset comparison for enumerating ones.",
